@@ -267,13 +267,26 @@ def race_pass(cid, injects, pkg, scenarios, budget=60, keyfn=None, rewrites=()):
         r = run_worker(w, ["-scenario", sc, "-budget", str(budget)], budget + 300,
                        env={"GORACE": "halt_on_error=0 exitcode=0 log_path=" + lp, "GOMAXPROCS": "8"})
         if "error" in r:
-            raise HarnessError(r["error"])
-        rec = r["results"][0]
+            m = re.search(r"fatal error: (concurrent map[^\n]*)\n(?:.*\n)*?goroutine \d+ \[running\]:\n(\S+)\(", r["error"])
+            if not m and not race_reports(lp):
+                raise HarnessError(r["error"])
+            # the Go runtime itself stopped the process on an unsynchronised map access: that is a verdict, not a harness error
+            rec = {"name": sc, "evaluations": 0, "exhaustive": False, "cap": "worker stopped by the Go runtime", "violations": [], "viol_counts": {}}
+            if m:
+                key = "data-race:runtime-fatal:%s in %s" % (m.group(1), m.group(2).split("/")[-1])
+                rec["viol_counts"][key] = 1
+                rec["violations"].append({"key": key, "what": "the Go runtime aborted the free-running companion: " + m.group(0)[:400],
+                                          "replay": {"scenario": sc, "kind": "race", "report": r["error"][-4000:]}})
+        else:
+            rec = r["results"][0]
         rec["adjunct"] = "go race detector, free-running"
         rec.setdefault("viol_counts", {})
         rec.setdefault("violations", [])
         for k, (c, text) in sorted(race_reports(lp).items()):
-            key = keyfn(sc, k) if keyfn else "data-race:" + k
+            key = keyfn(sc, k, text) if keyfn else "data-race:" + k
+            if key is None:
+                rec.setdefault("extra", {}).setdefault("reports_outside_scope", []).append(k)
+                continue
             rec["viol_counts"][key] = c
             rec["violations"].append({"key": key, "what": "race detector report (%d x) in %s: %s" % (c, sc, k),
                                       "replay": {"scenario": sc, "kind": "race", "report": text[:6000]}})
